@@ -85,10 +85,41 @@ class Fmt:
 
     def length(self):
         if self._len is None:
-            n = self.natural_len()
+            n = self.natural_len_cached()
             w = self.p["width"]
-            self._len = simp(z3.If(n >= w, n, z3.IntVal(w))) if w else simp(n)
+            if getattr(self, "_stripped", False):
+                # without padding; a space sign on a non-negative number is stripped too
+                if self.p["sign"] == " ":
+                    neg = (to_real(self.value) < 0) if is_sym(self.value) else (self.value < 0)
+                    n = n - z3.If(z(neg), 0, 1)
+                self._len = simp(n)
+            else:
+                self._len = simp(z3.If(n >= w, n, z3.IntVal(w))) if w else simp(n)
         return self._len
+
+    def starts_with_blank(self, I):
+        """Is the rendered text known to start with a blank (space sign on a non-negative value, or padding)?"""
+        if self.p["sign"] == " ":
+            neg = (to_real(self.value) < 0) if is_sym(self.value) else (self.value < 0)
+            if I_valid(I, b_not(neg)):
+                return True
+        w = self.p["width"]
+        if w and I_valid(I, num_cmp("<", self.natural_len_cached(), w)):
+            return True
+        return False
+
+    def natural_len_cached(self):
+        if getattr(self, "_nat", None) is None:
+            self._nat = self.natural_len()
+        return self._nat
+
+    def stripped(self):
+        """The same number with its padding/space-sign removed (what str.split()/strip() leave)."""
+        f = Fmt.__new__(Fmt)
+        f.__dict__.update(self.__dict__)
+        f._stripped = True
+        f._len = None
+        return f
 
     def parsed_value(self):
         """float(text) / int(text) of this segment under the format/parse contract."""
@@ -234,6 +265,9 @@ class SStr:
         if isinstance(container, str) and isinstance(item, str):
             return item in container
         c, it = SStr.wrap(container), SStr.wrap(item)
+        itc = it.concrete_or_self()
+        if isinstance(itc, str) and any(isinstance(s, Fmt) for s in c.segs):
+            return _sym_contains_lit(I, c, itc)
         if any(isinstance(s, Fmt) for s in c.segs + it.segs):
             raise Unsupported("'in' on formatted-number strings")
         return z3.Contains(c.to_z3(I), it.to_z3(I))
@@ -300,7 +334,7 @@ class SStr:
                     off = end
                     continue
                 else:
-                    raise MisalignedSlice(self, lo, hi, off, s)
+                    raise MisalignedSlice(self, lo, hi, off, s, list(I.pc), b_or(num_cmp("==", off, lo), num_cmp("<=", end, lo)))
             # started: does this segment fit entirely?
             if I_valid(I, num_cmp("<=", end, hi)):
                 out.append(s)
@@ -316,16 +350,18 @@ class SStr:
                     raise Unsupported("slice end at symbolic offset inside a literal")
                 out.append(Lit(s.text[:k2]))
                 return SStr.concat(out)
-            raise MisalignedSlice(self, lo, hi, off, s)
+            raise MisalignedSlice(self, lo, hi, off, s, list(I.pc), b_or(num_cmp("<=", end, hi), num_cmp("<=", hi, off)))
         return SStr.concat(out)
 
 
 class MisalignedSlice(Unsupported):
     """A slice cuts through a formatted field: reported by the column obligations, not silently modelled."""
 
-    def __init__(self, s, lo, hi, off, seg):
+    def __init__(self, s, lo, hi, off, seg, pc=None, cond=None):
         super().__init__(f"slice [{lo}:{hi}] cuts segment {seg!r} starting at offset {off}")
         self.lo, self.hi, self.off, self.seg = lo, hi, off, seg
+        self.pc = pc            # path condition at the slice
+        self.cond = cond        # alignment condition that could not be established (field starts at lo or ends before it)
 
 
 def I_valid(I, cond):
@@ -574,7 +610,10 @@ def _sym_strip(I, s, chars=None):
     if segs and isinstance(segs[0], Sym) and segs[0].lang not in ("digits+", "letters+", "noblank+"):
         segs[0] = _fresh_any(I, "lstrip")
     if segs and isinstance(segs[0], Fmt):
-        raise Unsupported("strip of a formatted field")
+        if len(segs) == 1:
+            return SStr([segs[0].stripped()])
+        segs[0] = _LeftStripped(segs[0]) if False else segs[0]
+        raise Unsupported("strip of a formatted field followed by other text")
     while segs and isinstance(segs[-1], Lit):
         t = segs[-1].text.rstrip()
         if t:
@@ -583,8 +622,6 @@ def _sym_strip(I, s, chars=None):
         segs.pop()
     if segs and isinstance(segs[-1], Sym) and segs[-1].lang not in ("digits+", "letters+", "noblank+"):
         segs[-1] = _fresh_any(I, "rstrip")
-    if segs and isinstance(segs[-1], Fmt):
-        raise Unsupported("strip of a formatted field")
     return SStr.concat(segs) if segs else ""
 
 
@@ -627,6 +664,10 @@ def _sym_startswith(I, s, prefix):
     if isinstance(prefix, tuple):
         return b_or(*[_sym_startswith(I, s, p) for p in prefix])
     first = s.segs[0]
+    if isinstance(first, Fmt):
+        if prefix and prefix[0] not in NUMERIC_CHARS:
+            return False
+        raise Unsupported("startswith with a numeric prefix on a formatted field")
     if isinstance(first, Lit) and len(first.text) >= len(prefix):
         return first.text.startswith(prefix)
     if isinstance(first, Lit) and not prefix.startswith(first.text):
@@ -636,7 +677,145 @@ def _sym_startswith(I, s, prefix):
     return z3.PrefixOf(z3.StringVal(prefix), s.to_z3(I))
 
 
-SYMBOLIC_METHODS = {"strip": _sym_strip, "startswith": _sym_startswith, "isdigit": _sym_isdigit,
+NUMERIC_CHARS = set("0123456789 .-+")
+
+
+def _lit_runs(s):
+    """Maximal runs of literal text between non-literal segments: list of ('lit', text) / ('seg', segment)."""
+    out = []
+    for seg in s.segs:
+        if isinstance(seg, Lit):
+            out.append(("lit", seg.text))
+        else:
+            out.append(("seg", seg))
+    return out
+
+
+def _sym_split(I, s, sep=None, maxsplit=-1):
+    """split() of a structured string.  Separators are found in literal text only: a Fmt field (a rendered number) cannot
+    contain a separator that has a non-numeric character; for whitespace splitting a Fmt is one token, possibly glued to
+    adjacent literal text unless that text provides the blank (otherwise the split is outside the subset)."""
+    if maxsplit != -1:
+        raise Unsupported("split with maxsplit on a structured string")
+    if sep is not None:
+        if isinstance(sep, SStr):
+            sep = sep.concrete()
+        if all(ch in NUMERIC_CHARS for ch in sep):
+            raise Unsupported("split separator that could occur inside a formatted number")
+        for seg in s.segs:
+            if isinstance(seg, Sym) and seg.lang == "any":
+                raise Unsupported("split of an unconstrained symbolic segment")
+        pieces = [[]]
+        for kind, v in _lit_runs(s):
+            if kind == "lit":
+                parts = v.split(sep)
+                pieces[-1].append(parts[0])
+                for p_ in parts[1:]:
+                    pieces.append([p_])
+            else:
+                pieces[-1].append(v)
+        return [SStr.concat(p_) for p_ in pieces]
+    # whitespace splitting
+    tokens = []
+    cur = []
+    cur_open = False     # a token is in progress and its last character is non-blank
+    for kind, v in _lit_runs(s):
+        if kind == "lit":
+            if not v:
+                continue
+            starts_blank = v[0].isspace()
+            ends_blank = v[-1].isspace()
+            words = v.split()
+            if not words:
+                if cur:
+                    tokens.append(cur)
+                    cur = []
+                continue
+            if starts_blank and cur:
+                tokens.append(cur)
+                cur = []
+            for wi, w in enumerate(words):
+                if wi > 0 and cur:
+                    tokens.append(cur)
+                    cur = []
+                cur.append(w)
+            if ends_blank:
+                tokens.append(cur)
+                cur = []
+        else:
+            if isinstance(v, Sym) and v.lang not in ("digits+", "letters+", "noblank+"):
+                raise Unsupported("whitespace split of an unconstrained symbolic segment")
+            if isinstance(v, Fmt):
+                if cur:
+                    # literal text glued to the number unless the number is known to start with a blank
+                    if not v.starts_with_blank(I):
+                        raise Unsupported("a formatted number directly follows non-blank text")
+                    tokens.append(cur)
+                    cur = []
+                cur.append(v.stripped())
+            else:
+                cur.append(v)
+    if cur:
+        tokens.append(cur)
+    return [SStr.concat(t) for t in tokens]
+
+
+def _sym_splitlines(I, s, keepends=False):
+    if keepends:
+        raise Unsupported("splitlines(keepends=True)")
+    for seg in s.segs:
+        if isinstance(seg, Sym) and seg.lang == "any":
+            raise Unsupported("splitlines of an unconstrained symbolic segment")
+    pieces = [[]]
+    for kind, v in _lit_runs(s):
+        if kind == "lit":
+            parts = v.splitlines(True)
+            for p_ in parts:
+                body = p_.rstrip("\r\n\x0b\x0c\x1c\x1d\x1e\x85\u2028\u2029")
+                pieces[-1].append(body)
+                if body != p_:
+                    pieces.append([])
+        else:
+            pieces[-1].append(v)
+    out = [SStr.concat(p_) for p_ in pieces]
+    if out and isinstance(out[-1], str) and out[-1] == "" and not pieces[-1] or (out and out[-1] == ""):
+        out.pop()
+    return out
+
+
+def _sym_contains_lit(I, s, item):
+    """item in s for a pattern with at least one character that cannot occur in a rendered number."""
+    if all(ch in NUMERIC_CHARS for ch in item):
+        raise Unsupported("'in' with a pattern that could occur inside a formatted number")
+    for seg in s.segs:
+        if isinstance(seg, Sym) and seg.lang == "any":
+            raise Unsupported("'in' on an unconstrained symbolic segment")
+    # a match may span literal + numeric text only through characters of NUMERIC_CHARS; require the distinguishing character
+    # to be found in literal text together with all its non-numeric neighbours
+    core = item.strip("0123456789 .-+")
+    return any(core in v for kind, v in _lit_runs(s) if kind == "lit") if core == item else _contains_exact(s, item)
+
+
+def _contains_exact(s, item):
+    raise Unsupported("'in' with a pattern that has numeric characters at its ends")
+
+
+def _sym_find(I, s, sub):
+    first = s.segs[0]
+    if isinstance(first, Lit) and sub in first.text:
+        return first.text.find(sub)
+    raise Unsupported("find on a structured string")
+
+
+def _sym_endswith(I, s, suffix):
+    last = s.segs[-1]
+    if isinstance(last, Lit) and len(last.text) >= len(suffix):
+        return last.text.endswith(suffix)
+    raise Unsupported("endswith across a non-literal segment")
+
+
+SYMBOLIC_METHODS = {"split": _sym_split, "splitlines": _sym_splitlines, "find": _sym_find, "endswith": _sym_endswith,
+                    "strip": _sym_strip, "startswith": _sym_startswith, "isdigit": _sym_isdigit,
                     "lower": lambda I, s: _case_map(I, s, "lower"), "upper": lambda I, s: _case_map(I, s, "upper"),
                     "capitalize": lambda I, s: _case_map(I, s, "capitalize")}
 
